@@ -262,11 +262,29 @@ def find_aggs(B, suffix_rx):
     return out
 
 
+def _with_private_helpers(F, f):
+    """f with its calls of small private helpers of the same source file spliced in (`XHeader::parse(rawdata, off)`,
+    `header.append_to(&mut bytes)`): the codec is read as one function however it is split"""
+    fl = f.get("file")
+    stop = ("from_bytes", "from_str")
+    elig = lambda c: F.fns[c].get("file") == fl and H_last(c) not in stop and len(F.fns[c]["mir"]["blocks"]) <= 200 and not c.startswith("<")
+    try:
+        f2, wh = M.inline_calls(F, f, elig, depth=2)
+    except Exception:
+        return f
+    return f2 if wh else f
+
+
+def H_last(p):
+    return p.rsplit("::", 1)[-1]
+
+
 def decode_struct(F, fn_path, struct_rx, bind=None, prefix="", depth=0):
     """{field path: bits | ('raw', lo, hi_text)} for the struct literal built by a decoder"""
     f = F.fn(fn_path)
     if f is None:
         return None, "decoder %s not found" % fn_path
+    f = _with_private_helpers(F, f)
     B = M.Body(f)
     buf, off = _buf_arg(B)
     if bind is None:
@@ -327,7 +345,7 @@ def decode_struct(F, fn_path, struct_rx, bind=None, prefix="", depth=0):
 
 def header_length(F, fn_path, pkt_struct_rx):
     """linear form (string) of the payload offset the decoder stores, relative to nothing"""
-    f = F.fn(fn_path)
+    f = _with_private_helpers(F, F.fn(fn_path))
     B = M.Body(f)
     cx = P.Ctx(B, F)
     for _, st in find_aggs(B, pkt_struct_rx):
@@ -346,6 +364,7 @@ def offset_form(F, fn_path, pkt_struct_rx):
     f = F.fn(fn_path)
     if f is None or not f.get("mir"):
         return None
+    f = _with_private_helpers(F, f)
     B = M.Body(f)
     cx = P.Ctx(B, F)
     buf, off = _buf_arg(B)
@@ -423,7 +442,7 @@ def offset_form(F, fn_path, pkt_struct_rx):
 
 def min_length_guard(F, fn_path):
     """the constant c of the prologue `if buf.len() < off + c { return Err }` (first dominating guard)"""
-    f = F.fn(fn_path)
+    f = _with_private_helpers(F, F.fn(fn_path))
     B = M.Body(f)
     cx = P.Ctx(B, F)
     best = None
@@ -445,6 +464,7 @@ def encode_bytes(F, fn_path, hdr_prefix="", depth=0, known=None):
     f = F.fn(fn_path)
     if f is None:
         return None, "encoder %s not found" % fn_path
+    f = _with_private_helpers(F, f)
     B = M.Body(f)
     hdr = B.local_name(1)
     ev = BitEval(F, B, "encode", {hdr: ("hdr",)})
